@@ -131,6 +131,17 @@ def _known_worker(modname, entries):
     out = []
     for e in entries:
         path = os.path.join(VERIF, e["replay"])
+        # every known/fixed replay starts cold: state leaking from one replay into the next (module-level caches,
+        # mutable defaults) must not turn into a spurious violation of another entry
+        try:
+            from . import proc
+            proc.purge(("cdd",))
+            for attr in ("_warm",):
+                w = getattr(mod, attr, None)
+                if isinstance(w, list) and w:
+                    w[0] = False
+        except BaseException:
+            pass
         try:
             with REAL_OPEN(path) as f:
                 trace = json.load(f)
@@ -361,6 +372,18 @@ def _replay_cmd(mod, path):
     with REAL_OPEN(path) as f:
         trace = json.load(f)
     viols = mod.replay(trace)
+    warm_note = ""
+    if not [v for v in viols if match_known(load_known(mod.ID), v) is None] and trace.get("warm_prefix"):
+        # cold replay is clean: run the recorded preceding history in this same process first, then the plan again.
+        # A violation that appears only then is real (the property is violated in a process that did other work before)
+        # and is caused by state leaking between runs inside one process.
+        for prev in trace["warm_prefix"]:
+            try:
+                mod.replay({"plan": prev, "kind": trace.get("kind")})
+            except BaseException:
+                pass
+        viols = mod.replay(trace)
+        warm_note = " [reproduces only WARM: after the recorded preceding history ran in the same process]"
     from .world import sweep
     sweep()
     want = trace.get("violation")
@@ -374,7 +397,8 @@ def _replay_cmd(mod, path):
         same = want is None or (v["clause"] == want.get("clause"))
         # any violation that no open known finding covers counts: a replay that now fails under another clause is
         # still a violation of the property, not a harness problem
-        print("%s clause=%s %s" % ("REPRODUCED" if same else "REPRODUCED(other clause)", v["clause"], v["detail"][:400]))
+        print("%s%s clause=%s %s" % ("REPRODUCED" if same else "REPRODUCED(other clause)", warm_note, v["clause"],
+                                    v["detail"][:400]))
         shown += 1
     if shown:
         print("VIOLATION property=%s replay=%s" % (mod.ID, os.path.abspath(path)))
